@@ -98,6 +98,12 @@ func (k Keeper) AddCoin(ctx sdk.Context, coinMetadata banktypes.Metadata, contra
 	if !found {
 		return nil, sdkerrors.Wrapf(types.ErrTokenPairNotFound, "token '%s' not registered", contractAddr)
 	}
+	// coins can be aggregated into a module-owned token only: for an externally owned contract the
+	// escrowed tokens back its own voucher, and another coin converted through the pair would be paid
+	// out of that escrow (and burned instead of escrowed)
+	if !pair.IsNativeCoin() {
+		return nil, sdkerrors.Wrapf(types.ErrUndefinedOwner, "token '%s' is not owned by the module", contractAddr)
+	}
 	pair.Denoms = append(pair.Denoms, coinMetadata.Base)
 	// id not change, just overwrite
 	if !bytes.Equal(id, pair.GetID()) {
